@@ -55,6 +55,9 @@ PROPS = {
                                                  oracles=["setup_keeps_existing", "setup_default_value", "setup_idempotent"])}),
     "C14": dict(suites={"exec": dict(fields=XLAYOUT, oracles=["panic_payload", "panic_dependents", "panic_twice", "next_dispatch", "probe_free",
                                                               "unexpected_panic"])}),
+    "C17": dict(suites={"meta": dict(fields=["outcome", "driver-exception"],
+                                     oracles=["get_iff_registered", "own_vtable", "same_address", "bad_cast_only",
+                                              "iter_registered_present_in_first_registration_order", "iter_own_vtable"])}),
     "C18": dict(suites={"plan": dict(fields=["calls", "err", "driver-exception"], oracles=["errors_exact", "status:setup-panic", "status:run-panic"],
                                      gens=["malformed"])}),
     "C20": dict(suites={"plan": dict(fields=["print", "driver-exception"], oracles=["print_total", "print_matches"])}),
